@@ -982,7 +982,8 @@ fn gen_ereq(r: &mut Rng, p: &Proj, epoch: i64, clean: bool) -> Option<EReq> {
     let k = *r.pick(&ids);
     let c = &p.claims[&k];
     let limit = epoch + MAX_TERM - c.term_start;
-    let term_max = match if clean { 4 } else { r.below(7) } {
+    // a paid extension may reach the policy maximum counted from *now*, i.e. a term above MAX_TERM
+    let term_max = match if clean { *r.pick(&[3u64, 4, 4]) } else { r.below(7) } {
         0 => c.term_max,
         1 => c.term_max - 1,
         2 => limit + 1,
@@ -998,6 +999,22 @@ pub fn gen_op(r: &mut Rng, s: &Sys, p: &Proj, epoch: i64) -> Op {
     let clean = r.chance(1, 2);
     let verifiers: Vec<u64> = p.verifiers.keys().cloned().collect();
     let holders: Vec<u64> = p.balances.keys().cloned().filter(|a| *a != VERIFREG_ID).collect();
+    // targeted pair (two operations that have to cooperate): a paid extension that takes a claim's term
+    // to the policy maximum counted from *now* (above MAX_TERM once the claim has aged), and then the
+    // client's ExtendClaimTerms at and around MAX_TERM, which is below the term the claim now has
+    if let Some((kid, c)) = p.claims.iter().find(|(_, c)| c.term_max > MAX_TERM) {
+        if r.chance(1, 4) {
+            let term_max = *r.pick(&[MAX_TERM, MAX_TERM, MAX_TERM - 1, c.term_max - 1, c.term_max]);
+            return Op::ExtendTerms { caller: c.client, terms: vec![EReq { provider: c.provider, claim: *kid, term_max }] };
+        }
+    } else if let Some((kid, c)) = p.claims.iter().find(|(_, c)| epoch > c.term_start && epoch <= c.term_start + c.term_max) {
+        let rich: Vec<u64> = holders.iter().cloned().filter(|h| bal(p, *h) / prec() >= BigInt::from(c.size)).collect();
+        if !rich.is_empty() && r.chance(1, 6) {
+            let caller = *r.pick(&rich);
+            let ext = EReq { provider: c.provider, claim: *kid, term_max: epoch + MAX_TERM - c.term_start };
+            return Op::Transfer { caller, to: VERIFREG_ID, amount: BigInt::from(c.size) * prec(), data: Some((vec![], vec![ext])) };
+        }
+    }
     if k < 7 || (verifiers.is_empty() && k < 30) {
         let caller = if clean || r.chance(7, 8) { ROOT_ID } else { pick_acct(r, s) };
         let addr = if clean || r.chance(5, 6) { pick_acct(r, s) } else { odd_actor(r, s) };
@@ -1178,7 +1195,11 @@ pub fn gen_op(r: &mut Rng, s: &Sys, p: &Proj, epoch: i64) -> Op {
             let kid = *r.pick(&ids);
             let c = &p.claims[&kid];
             if clean || r.chance(5, 6) { caller = c.client; }
-            let term_max = match if clean { 4 } else { r.below(7) } {
+            let over = c.term_max > MAX_TERM && r.chance(1, 2);
+            // a claim already extended past MAX_TERM (by a paid extension): requests at and around the
+            // policy maximum are *below* its current term
+            let term_max = match if over { 7 } else if clean { 4 } else { r.below(7) } {
+                7 => *r.pick(&[MAX_TERM, MAX_TERM, MAX_TERM - 1, c.term_max - 1]),
                 0 => c.term_max - 1,
                 1 => MAX_TERM + 1,
                 2 => c.term_max,
@@ -1349,6 +1370,10 @@ pub fn run_generic(prop: &str, cfg: &RunCfg, rep: &mut Report, nseq: u64, maxlen
             let p = project(&s);
             let op = gen_op(&mut r, &s, &p, epoch);
             rep.op(op.name());
+            if let Op::ExtendTerms { terms, .. } = &op {
+                if terms.iter().any(|t| p.claims.get(&t.claim).map(|c| c.term_max > MAX_TERM && t.term_max < c.term_max && t.term_max >= MAX_TERM - 1).unwrap_or(false)) { rep.branch("extend-terms-below-an-over-limit-term"); }
+            }
+            if p.claims.values().any(|c| c.term_max > MAX_TERM) { rep.branch("step-with-claim-above-max-term"); }
             if let Op::Advance { to_epoch } = op {
                 epoch = to_epoch;
                 s.w.vm.set_epoch(epoch);
